@@ -451,6 +451,200 @@ fn eval_tap(v: u16, c: &CfgT) -> String {
     format!("m 1 | {}", canon_events(&k.kbd_out.outputs.events))
 }
 
+// [t8:pipe] begin
+/// `C11 pipe <expect> KAN 0 <hex(cfg text)> HIST ...` - a whole configuration text (a zippychord
+/// dictionary travels as a `;;file <name> <hex>` comment line, see kan::cfg_files) run on the real
+/// `Kanata` with the simulated output sink: `pipe <OS events with virtual times>` | `pipe rej`.
+/// `<expect>` is read by the runner's oracle only (`same:<code>`: every key event sent to the OS
+/// carries that code, and it is sent; `noignored`: no code of the reserved range 676..=685 is sent).
+fn eval_pipe(line: &str) -> String {
+    let Some(pos) = line.find(" KAN ") else {
+        return "harness-error pipe case without KAN part".into();
+    };
+    let p = crate::kan::parse_kline(&line[pos + 1..]);
+    let mut r = match crate::kan::Runner::new(&p.cfg_text) {
+        Ok(r) => r,
+        Err(e) => {
+            reset_custom_names();
+            // the text under the arrow and the help line of the rendered diagnostic
+            let flat: String = e.split_whitespace().collect::<Vec<_>>().join(" ");
+            let at = |pat: &str| flat.find(pat).map(|i| flat[i..].chars().take(110).collect::<String>()).unwrap_or_default();
+            let msg = format!("{} {}", at("╰── "), at("help:"));
+            return format!("pipe rej {msg}");
+        }
+    };
+    reset_custom_names();
+    crate::kan::run_hist(&mut r, &p.hist, false, false);
+    format!("pipe {}", if r.out.is_empty() { "-".to_string() } else { r.out.join(" ") })
+}
+
+fn pipe_line(expect: &str, cfg_text: &str, hist: &[crate::kan::KEv]) -> String {
+    format!("C11 pipe {expect} {}", crate::kan::mk_kline("KAN", false, cfg_text, hist))
+}
+
+fn tap_under(layer_key: Option<u16>, key: u16) -> Vec<crate::kan::KEv> {
+    use crate::kan::KEv;
+    use crate::lay::HEv;
+    let mut h = vec![];
+    if let Some(l) = layer_key {
+        h.push(KEv::L(HEv::Press(0, l)));
+        h.push(KEv::L(HEv::Tick(5)));
+    }
+    h.push(KEv::L(HEv::Press(0, key)));
+    h.push(KEv::L(HEv::Tick(5)));
+    h.push(KEv::L(HEv::Release(0, key)));
+    h.push(KEv::L(HEv::Tick(5)));
+    if let Some(l) = layer_key {
+        h.push(KEv::L(HEv::Release(0, l)));
+    }
+    h.push(KEv::L(HEv::Tick(250)));
+    h
+}
+
+/// Family `pipe-identity` (statement: "a key that is mapped to itself ... comes out as the same OS
+/// key code that went in"): `use-defsrc` maps a key to itself whatever the other layers do. Options
+/// `delegate-to-first-layer yes|no` x first layer written as deflayer | deflayermap and remapping
+/// the key under test to another key x the position of `use-defsrc` on a held upper layer (bare, in
+/// multi, in a switch case, as the tap action of a tap-hold, in a fork branch; the parser refuses it
+/// inside one-shot) x key under test.
+fn gen_pipe_identity(r: &mut Rng, named: &[(String, u16)], thorough: bool, out: &mut Vec<String>) {
+    let plain: Vec<(String, u16)> = named
+        .iter()
+        .filter(|(n, c)| lexer_safe(n) && *c != 0 && *c < 700 && !(676..=685).contains(c) && !(272..=279).contains(c) && !n.starts_with("mwu") && !n.starts_with("mwd")
+            && !n.starts_with("mwl") && !n.starts_with("mwr") && !n.starts_with("mlft") && !n.starts_with("mrgt") && !n.starts_with("mmid")
+            && !n.starts_with("mfwd") && !n.starts_with("mbck") && !["spc", "caps", "lsft", "rsft", "lctl", "rctl", "lalt", "ralt", "lmet", "rmet"].contains(&n.as_str()))
+        .cloned()
+        .collect();
+    let positions: [(&str, &str); 5] = [
+        ("bare", "use-defsrc"),
+        ("multi", "(multi use-defsrc)"),
+        ("switch", "(switch () use-defsrc break)"),
+        ("taphold", "(tap-hold 0 200 use-defsrc XX)"),
+        ("fork", "(fork use-defsrc XX (lctl))"),
+    ];
+    let mut keys: Vec<(String, u16)> = vec![];
+    let mut seen = std::collections::HashSet::new();
+    if thorough {
+        for (n, c) in &plain {
+            if *c != 58 && seen.insert(*c) {
+                keys.push((n.clone(), *c));
+            }
+        }
+    } else {
+        // `a` always (the witness of the seeded change), then a seed-dependent sample
+        for (n, c) in plain.iter().filter(|(n, _)| n == "a" || n == "f1") {
+            if seen.insert(*c) {
+                keys.push((n.clone(), *c));
+            }
+        }
+        let mut guard = 0;
+        while keys.len() < 24 && guard < 5000 {
+            guard += 1;
+            let (n, c) = r.pick(&plain).clone();
+            if c != 58 && seen.insert(c) {
+                keys.push((n, c));
+            }
+        }
+    }
+    let caps = 58u16; // the key that holds the upper layer
+    for (kname, kcode) in &keys {
+        // another key, to which the first layer remaps the key under test
+        let (xname, _) = plain.iter().find(|(_, c)| c != kcode && *c != caps).unwrap().clone();
+        for delegate in ["yes", "no"] {
+            for first in ["deflayer", "deflayermap"] {
+                for (_pname, ptext) in positions.iter() {
+                    let mut t = format!("(defcfg delegate-to-first-layer {delegate} process-unmapped-keys yes)\n");
+                    if first == "deflayer" {
+                        t.push_str(&format!("(defsrc {kname} caps)\n(deflayer base {xname} (layer-while-held nav))\n(deflayer nav {ptext} _)\n"));
+                    } else {
+                        t.push_str(&format!("(defsrc caps)\n(deflayermap (base) {kname} {xname} caps (layer-while-held nav))\n(deflayermap (nav) {kname} {ptext})\n"));
+                    }
+                    out.push(pipe_line(&format!("same:{kcode}"), &t, &tap_under(Some(caps), *kcode)));
+                }
+            }
+        }
+    }
+}
+
+/// Family `pipe-noignored` (statement: "The reserved no-op codes are never sent to the OS"): every
+/// route by which a configuration can name nop0..nop9 as something to be sent - plain mapping, multi,
+/// macro, output chord, tap-hold, one-shot, fork, chords v1 / v2, overrides, sequences, and the
+/// zippychord output-character-mappings - pressed and released.
+fn gen_pipe_noignored(out: &mut Vec<String>) {
+    use crate::kan::KEv;
+    use crate::lay::HEv;
+    let (ka, kb, kd, ky) = (30u16, 48u16, 32u16, 21u16);
+    let tap = |k: u16| vec![KEv::L(HEv::Press(0, k)), KEv::L(HEv::Tick(10)), KEv::L(HEv::Release(0, k)), KEv::L(HEv::Tick(300))];
+    for n in 0..10 {
+        let nop = format!("nop{n}");
+        let acts = [
+            nop.clone(),
+            format!("(multi {nop} b)"),
+            format!("(macro {nop} 5 b)"),
+            format!("S-{nop}"),
+            format!("(tap-hold 0 50 {nop} {nop})"),
+            format!("(one-shot 50 {nop})"),
+            format!("(fork {nop} {nop} (lctl))"),
+            format!("(tap-dance 50 ({nop} b))"),
+            format!("(unmod {nop})"),
+        ];
+        for a in acts.iter() {
+            let t = format!("(defsrc a b)\n(deflayer l {a} b)\n");
+            out.push(pipe_line("noignored", &t, &tap(ka)));
+        }
+        let t = format!("(defsrc a b)\n(deflayer l a b)\n(defoverrides (a) ({nop}))\n");
+        out.push(pipe_line("noignored", &t, &tap(ka)));
+        let t = format!("(defsrc a b)\n(deflayer l (chord c a) (chord c b))\n(defchords c 50 (a) a (b) b (a b) {nop})\n");
+        out.push(pipe_line("noignored", &t, &[KEv::L(HEv::Press(0, ka)), KEv::L(HEv::Press(0, kb)), KEv::L(HEv::Tick(10)), KEv::L(HEv::Release(0, ka)), KEv::L(HEv::Release(0, kb)), KEv::L(HEv::Tick(300))]));
+        let t = format!("(defcfg concurrent-tap-hold yes)\n(defsrc a b)\n(deflayer l a b)\n(defchordsv2 (a b) {nop} 50 all-released ())\n");
+        out.push(pipe_line("noignored", &t, &[KEv::L(HEv::Press(0, ka)), KEv::L(HEv::Tick(2)), KEv::L(HEv::Press(0, kb)), KEv::L(HEv::Tick(10)), KEv::L(HEv::Release(0, ka)), KEv::L(HEv::Release(0, kb)), KEv::L(HEv::Tick(300))]));
+        // zippychord: the dictionary types `d<mapped character>y`
+        let dict = crate::lay::hex("dy\td%y\n");
+        let t = format!(";;file zippy.txt {dict}\n(defsrc lalt)\n(deflayer base XX)\n(defzippy zippy.txt output-character-mappings (% {nop}))\n");
+        out.push(pipe_line("noignored", &t, &[KEv::L(HEv::Press(0, kd)), KEv::L(HEv::Tick(10)), KEv::L(HEv::Press(0, ky)), KEv::L(HEv::Tick(10)), KEv::L(HEv::Release(0, kd)), KEv::L(HEv::Release(0, ky)), KEv::L(HEv::Tick(100))]));
+    }
+}
+/// Family `pipe-contexts` (statement: "a key name denotes the same code wherever it is written"): a
+/// key name that is accepted as a plain action is written as the key of an output chord, as a macro
+/// item and inside a defseq key list; each of these configurations must be accepted too (what they
+/// then send is the business of C08 / C12). Always includes `dnd` (code 251, which the parser also
+/// uses as the O- marker of defseq).
+fn gen_pipe_contexts(r: &mut Rng, named: &[(String, u16)], thorough: bool, out: &mut Vec<String>) {
+    use crate::kan::KEv;
+    use crate::lay::HEv;
+    let plain: Vec<(String, u16)> = named
+        .iter()
+        .filter(|(n, c)| lexer_safe(n) && *c != 0 && *c < 700 && !(676..=685).contains(c) && !(272..=279).contains(c)
+            && !["lsft", "rsft", "lctl", "rctl", "lalt", "ralt", "lmet", "rmet"].contains(&n.as_str())
+            && ![42u16, 54, 29, 97, 56, 100, 125, 126].contains(c) && n.chars().all(|ch| ch.is_ascii_alphanumeric())
+            // a number in a macro is a delay (documented); digit keys are written Digit0.. there
+            && !n.chars().all(|ch| ch.is_ascii_digit()))
+        .cloned()
+        .collect();
+    let mut names: Vec<String> = vec!["dnd".into(), "a".into()];
+    if thorough {
+        names = plain.iter().map(|x| x.0.clone()).collect();
+    } else {
+        while names.len() < 20 {
+            let n = r.pick(&plain).0.clone();
+            if !names.contains(&n) {
+                names.push(n);
+            }
+        }
+    }
+    let h = vec![KEv::L(HEv::Press(0, 30)), KEv::L(HEv::Tick(5)), KEv::L(HEv::Release(0, 30)), KEv::L(HEv::Tick(50))];
+    for n in &names {
+        for (ctx, t) in [
+            ("chord", format!("(defsrc a b)\n(deflayer l C-{n} b)\n")),
+            ("macro", format!("(defsrc a b)\n(deflayer l (macro {n}) b)\n")),
+            ("defseq", format!("(defsrc a b)\n(deflayer l sldr b)\n(defvirtualkeys v x)\n(defseq v (b {n}))\n")),
+        ] {
+            out.push(pipe_line(&format!("accepted:{ctx}:{}", string_to_cps(n)), &t, &h));
+        }
+    }
+}
+// [t8:pipe] end
+
 pub fn eval(line: &str) -> String {
     let mut t = Toks(line.split_whitespace());
     let r: Result<String, String> = (|| {
@@ -470,6 +664,11 @@ pub fn eval(line: &str) -> String {
                 let v = t.num()? as u16;
                 let c = parse_cfg_tokens(&mut t)?;
                 Ok(eval_tap(v, &c))
+            }
+            "pipe" => {
+                // [t8:pipe]
+                let _expect = t.next()?;
+                Ok(eval_pipe(line))
             }
             "show" => {
                 let c = parse_cfg_tokens(&mut t)?;
@@ -629,6 +828,12 @@ pub fn gen(tier: &str, seed: u64) -> Vec<String> {
     for _ in 0..n_cfg {
         out.push(format!("C11 mapped {}", cfg_tokens(&gen_cfg(&mut r, &named, &acc))));
     }
+    // 5. [t8:pipe] whole configurations on the real pipeline (own PRNG stream: the families above
+    // keep their cases)
+    let mut r5 = Rng::new(seed ^ 0xC11_0005);
+    gen_pipe_identity(&mut r5, &named, thorough, &mut out);
+    gen_pipe_noignored(&mut out);
+    gen_pipe_contexts(&mut r5, &named, thorough, &mut out);
     out
 }
 
